@@ -546,6 +546,10 @@ func ttlNoWrap(c *Ctx, r *Report, rule string) {
 		if !arith {
 			return
 		}
+		// an index over the text (i := 0; i < len(token); i++) is not an accumulator: it steps by one below a length
+		if isLenBoundedCounter(phi) {
+			return
+		}
 		n++
 		name := phi.Comment
 		if name == "" {
@@ -1122,4 +1126,41 @@ func c02PrintBounds(c *Ctx, r *Report, rule string) {
 			r.check(s.Proven, rule, construct, c.pos(s.Instr.Pos()), s.Why, "the access %s is not covered by a dominating test (%s): printing a record the decoder accepted can panic", s.describe(), s.Why)
 		}
 	}
+}
+
+// isLenBoundedCounter: a loop-header phi every back edge of which is phi+1, in a loop whose header lets the body run
+// only under phi < len(...): it cannot pass the length of a string or slice, so it cannot wrap.
+func isLenBoundedCounter(phi *ssa.Phi) bool {
+	hdr := phi.Block()
+	for i, e := range phi.Edges {
+		if !hdr.Dominates(hdr.Preds[i]) {
+			continue
+		}
+		b, ok := e.(*ssa.BinOp)
+		if !ok || b.Op != token.ADD || b.X != ssa.Value(phi) {
+			return false
+		}
+		if k, isK := constIntOf(b.Y); !isK || k != 1 {
+			return false
+		}
+	}
+	ifi, ok := hdr.Instrs[len(hdr.Instrs)-1].(*ssa.If)
+	if !ok {
+		return false
+	}
+	cmp, ok := ifi.Cond.(*ssa.BinOp)
+	if !ok || cmp.Op != token.LSS || cmp.X != ssa.Value(phi) {
+		return false
+	}
+	call, ok := cmp.Y.(*ssa.Call)
+	if !ok || calleeNameSSA(&call.Call) != "builtin.len" {
+		return false
+	}
+	// every back edge comes from the side of the test on which the counter is below the length
+	for i := range phi.Edges {
+		if p := hdr.Preds[i]; hdr.Dominates(p) && !(hdr.Succs[0] == p || hdr.Succs[0].Dominates(p)) {
+			return false
+		}
+	}
+	return true
 }
